@@ -215,11 +215,15 @@ fn macro_expand(
         bail!("call undefined macro {} on {}", macro_name, line);
     }
 
+    // empty segments are dropped, except the last one: it is where the body left off (a body that
+    // ends with `.cseg` / `.dseg` / `.eseg` / `.org` hands that position to what follows the call)
+    let segments = segments.borrow();
+    let last = segments.len() - 1;
     let segments = segments
-        .borrow()
         .iter()
-        .filter(|x| !x.borrow().is_empty())
-        .map(|x| x.borrow().clone())
+        .enumerate()
+        .filter(|(i, x)| *i == last || !x.borrow().is_empty())
+        .map(|(_, x)| x.borrow().clone())
         .collect();
 
     Ok(segments)
